@@ -26,6 +26,8 @@ RULES = {
     "C14-c": "locality: _update_context stores only under context['variable'] and carries the subcontexts of all composed "
              "types over to the new one; __call__ returns (getter(data), context)",
     "C14-d": "TYPESTATE: Variable/Combine/Compose reject bad arguments with LenaTypeError before building state",
+    "C14-e": "AGREE: get_data, get_context and get_data_context split a value by one and the same predicate, which accepts "
+             "subclasses of tuple/dict (isinstance, not an exact-type test)",
 }
 VAR = "lena.variables.variable"
 LTE = "lena.core.exceptions.LenaTypeError"
@@ -503,7 +505,52 @@ def check_constructors(ctx):
               construct="all_vars")
 
 
+def check_value_split(ctx):
+    """Variable.__call__ splits the value with get_data_context.  The three splitting helpers document one notion of
+    '(data, context) pair' (a 2-tuple whose second item is a dictionary *or a subclass*, e.g. lena.context.Context):
+    they must all decide by the one predicate, and the predicate must use isinstance."""
+    res = ctx.res
+    FF = "lena.flow.functions"
+    pred = ctx.tree.func(FF, "_has_context")
+    pp = A.func_params(pred)[0]
+    # the predicate: only isinstance/len tests, never type(x) is / ==
+    exact = [c for c in A.walk_local(pred) if isinstance(c, ast.Compare) and any(isinstance(x, ast.Call) and res.call_canon(x) == "builtins.type"
+                                                                                  for x in [c.left] + list(c.comparators))]
+    inst = [c for c in A.walk_local(pred) if isinstance(c, ast.Call) and res.call_canon(c) == "builtins.isinstance" and len(c.args) == 2]
+    kinds = sorted(res.canon(c.args[1]) or A.src(c.args[1]) for c in inst)
+    ctx.check("C14-e", not exact and kinds == ["builtins.dict", "builtins.tuple"], pred, "_has_context does not recognise a pair by "
+              "isinstance(value, tuple) and isinstance(value[1], dict) (%s%s): a context of a dict subclass (lena.context.Context, "
+              "OrderedDict) would be taken for data" % (kinds, ", exact-type test `%s`" % A.short(exact[0], 40) if exact else ""),
+              detail="_has_context: isinstance tests for tuple and dict", construct="has-context-predicate")
+    n = 0
+    for name in ("get_data", "get_context", "get_data_context"):
+        fn = ctx.tree.func(FF, name)
+        vp = A.func_params(fn)[0]
+        for p in P.paths_of(fn):
+            if p.end != "return":
+                continue
+            n += 1
+            lits = p.literals()
+            via_pred = [pol for t, pol in lits if isinstance(t, ast.Call) and res.call_canon(t) == FF + "._has_context"
+                        and [A.src(a) for a in t.args] == [vp]]
+            other = [t for t, pol in lits if not (isinstance(t, ast.Call) and res.call_canon(t) == FF + "._has_context")]
+            ctx.check("C14-e", len(via_pred) == 1 and not other, fn, "%s decides whether the value has a context by `%s`, not by the common "
+                      "predicate _has_context(value): the splitting helpers disagree on what a (data, context) pair is, so a variable "
+                      "applied to such a value takes the whole pair for data and drops its context" % (
+                          name, " and ".join(A.short(t, 40) for t in other) or "nothing"),
+                      detail="%s splits by _has_context(value) [%s]" % (name, p.describe(2)), construct="split-predicate:%s" % name, path=p)
+            r = [x for x in p.stmts() if isinstance(x, ast.Return)][-1]
+            if via_pred:
+                want = {"get_data": ("%s[0]" % vp, vp), "get_context": ("%s[1]" % vp, "{}"),
+                        "get_data_context": ("(%s[0], %s[1])" % (vp, vp), "(%s, {})" % vp)}[name][0 if via_pred[0] else 1]
+                ctx.check("C14-e", A.src(r.value) == want, r, "%s returns `%s` for a value %s context, expected `%s`" % (
+                    name, A.src(r.value), "with" if via_pred[0] else "without", want), detail="%s -> %s" % (name, want),
+                    construct="split-result:%s:%s" % (name, via_pred[0]), path=p)
+    ctx.instances_floor("C14-e", n, 6, "return paths of the value-splitting helpers")
+
+
 def check(ctx):
+    check_value_split(ctx)
     check_black_box(ctx)
     check_fold(ctx)
     check_fresh(ctx)
@@ -512,6 +559,9 @@ def check(ctx):
 
 
 VARIANTS = [
+    M("split-exact-types", "lena/flow/functions.py", "    if _has_context(value):\n        return (value[0], value[1])\n    else:\n        return (value, {})", "    if (type(value) is tuple and len(value) == 2\n            and type(value[1]) is dict):\n        return (value[0], value[1])\n    return (value, {})", ["C14-e"]),
+    M("has-context-exact-dict", "lena/flow/functions.py", "            if isinstance(value[1], dict):\n                return True", "            if type(value[1]) is dict:\n                return True", ["C14-e"]),
+    M("get-context-swapped", "lena/flow/functions.py", "    if _has_context(value):\n        return value[1]\n    else:\n        return {}", "    if _has_context(value):\n        return value[0]\n    else:\n        return {}", ["C14-e"]),
     M("compose-reversed", "lena/variables/variable.py", "            for var in self._vars:\n                value = var.getter(value)",
       "            for var in reversed(self._vars):\n                value = var.getter(value)", ["C14-a"]),
     M("compose-context-skip", "lena/variables/variable.py", "for var in self._vars[1:]:", "for var in self._vars[2:]:", ["C14-a"]),
